@@ -90,6 +90,27 @@ func withoutFlag(l []string, f string) []string {
 	return r
 }
 
+// compareNoneWithSource: the blocks a built file has from its own source (blocks added by a stack
+// directive come after them) carry the manifest's flags if a manifest gives flags for the file,
+// the source's flags otherwise.
+func compareNoneWithSource(built, source string, manifest []string) string {
+	hb, hs := scanHeaders(built), scanHeaders(source)
+	if len(hb) < len(hs) {
+		return fmt.Sprintf("the built file has %d block headers, its source %d", len(hb), len(hs))
+	}
+	for i := range hs {
+		want := flagSet(hs[i].Flags)
+		why := "its source"
+		if manifest != nil {
+			want, why = flagSet(manifest), "the flags manifest"
+		}
+		if got := flagSet(hb[i].Flags); got != want {
+			return fmt.Sprintf("block %d (%s) built with neither option has flags {%s}, %s says {%s}", i, strings.TrimSpace(hb[i].Line), got, why, want)
+		}
+	}
+	return ""
+}
+
 // compareModes checks one file built in the three modes.
 func compareModes(none, complain, enforce string) error {
 	hn, hc, he := scanHeaders(none), scanHeaders(complain), scanHeaders(enforce)
@@ -132,7 +153,7 @@ func TestC05_Shipped(t *testing.T) {
 	if err := haveBins(); err != nil {
 		t.Fatalf("INFRA: %v", err)
 	}
-	ev := NewEv(t, "C05", "shipped", "triples of real builds (none, complain, enforce) of the shipped tree for the same (distribution, ABI, version, full) cell - all 30 cells in thorough, a seeded covering sample of 4 in quick; oracle: independent header scanner; for every file and block index the three headers agree on everything but flags, flags(complain) = flags(none) + complain, flags(enforce) = flags(none) - complain, as sets. Non-trivial: a file with >= 2 blocks whose flags differ, or whose first flags=( is not on the first header; distinct by cell + file")
+	ev := NewEv(t, "C05", "shipped", "triples of real builds (none, complain, enforce) of the shipped tree for the same (distribution, ABI, version, full) cell - all 30 cells in thorough, a seeded covering sample of 4 in quick; oracle: independent header scanner; for every file and block index the three headers agree on everything but flags, flags(complain) = flags(none) + complain, flags(enforce) = flags(none) - complain, as sets; and flags(none) of every block a file has from its own source = the manifest's flags where a manifest gives flags for the file (prepare model), the source's flags otherwise. Non-trivial: a file with >= 2 blocks whose flags differ, or whose first flags=( is not on the first header; distinct by cell + file")
 	ev.Exhaustive = isThorough()
 	cells := c05Cells()
 	var mu sync.Mutex
@@ -154,11 +175,29 @@ func TestC05_Shipped(t *testing.T) {
 		}
 		files := listFiles(builds[0].Apparmord())
 		nblocks := 0
+		// "the flags it has when built with neither option, i.e. the source flags as overridden by
+		// the common and per-distribution flags manifests": the prepare model says which source
+		// file and which manifest entry stand behind every built file
+		pm, perr := modelPrepare(repoRoot(), cell)
+		if perr != nil {
+			mu.Lock()
+			t.Errorf("INFRA: %v", perr)
+			mu.Unlock()
+			return
+		}
 		for _, f := range files {
 			if strings.HasPrefix(f, "disable/") {
 				continue
 			}
 			tn := readFile(filepath.Join(builds[0].Apparmord(), f))
+			if e, ok := pm.Apparmord[f]; ok && e.Source != "" {
+				if msg := compareNoneWithSource(tn, readFile(filepath.Join(repoRoot(), e.Source)), e.Flags); msg != "" {
+					mu.Lock()
+					ev.Violate(map[string]any{"cell": cell, "file": f}, "shipped-none:"+f, "%s: %s: %s", cell, f, msg)
+					t.Errorf("%s: %s: %s", cell, f, msg)
+					mu.Unlock()
+				}
+			}
 			tc := readFile(filepath.Join(builds[1].Apparmord(), f))
 			te := readFile(filepath.Join(builds[2].Apparmord(), f))
 			hs := scanHeaders(tn)
